@@ -1100,6 +1100,17 @@ class Expr:
             "remainder",
             "len",
             "dtype_index",
+            "atan2",
+            "copysign",
+            "is_finite",
+            "is_inf",
+            "is_posinf",
+            "is_neginf",
+            "is_nan",
+            "is_negzero",
+            "round",
+            "truncate",
+            "nextafter",
         }:
             return False
         elif self.kind in {"complex", "conjugate"}:
@@ -1132,6 +1143,10 @@ class Expr:
             "exp",
             "expm1",
             "exp2",
+            "sign",
+            "upcast",
+            "downcast",
+            "asin_acos_kernel",
         }:
             return self.operands[0].is_complex
         elif self.kind == "apply":
